@@ -130,6 +130,9 @@ func (x *Unit) sp(st *State, e ast.Expr, c *specCtx) Val {
 			x.specErr(e, "deref of non-pointer")
 			return Val{x.fresh("bad", SInt), nil}
 		}
+		if av, ok := x.atomicView(st, &LV{kind: lvHeap, key: structKey(pt.Elem()), ref: p.T, typ: pt.Elem()}); ok {
+			return x.readLV(st, av) // *p for a pointer to an atomic: the value of its cell
+		}
 		if _, ok := under(pt.Elem()).(*types.Struct); ok && !isNamed(pt.Elem(), "time", "Time") {
 			return x.readStructAt(st, p.T, pt.Elem())
 		}
@@ -750,6 +753,9 @@ func (x *Unit) spCall(st *State, e *ast.CallExpr, c *specCtx) Val {
 			as = append(as, a.T)
 		}
 		x.useSpecFunc(sf)
+		if len(as) == 0 {
+			return Val{T{sf.smtName, sf.rsort}, sf.rtype}
+		}
 		return Val{App(sf.rsort, sf.smtName, as...), sf.rtype}
 	}
 	if v, ok := x.spPureCall(st, e, c); ok {
@@ -969,6 +975,9 @@ func (x *Unit) specLV(st *State, e ast.Expr, c *specCtx) *LV {
 	case *ast.StarExpr:
 		p := x.sp(st, e.X, c)
 		if pt, ok := under(p.Typ).(*types.Pointer); ok {
+			if av, ok := x.atomicView(st, &LV{kind: lvHeap, key: structKey(pt.Elem()), ref: p.T, typ: pt.Elem()}); ok {
+				return av
+			}
 			return x.derefLV(p, pt.Elem())
 		}
 	}
